@@ -133,7 +133,8 @@ def _check(case):
     for nm in lm.meas_names(spec):
         a = np.asarray(out[nm].get_data(span))[:, 0]
         b = np.asarray(db[nm].get_data(span))[:, 0]
-        col.check(bool(np.array_equal(a, b, equal_nan=True)), "measurement_touched", lambda: f"{nm}: output differs from the input on the span")
+        # log-variables pass through log/exp inside the simulator: equal up to the last bits
+        col.check(bool(np.allclose(a, b, rtol=1e-12, atol=0.0, equal_nan=True)), "measurement_touched", lambda: f"{nm}: output {a.tolist()} differs from the input {b.tolist()} on the span")
 
     # ---- 1. residuals, frame by frame -----------------------------------------------------------------
     frames = info.get("frames", ())
